@@ -28,6 +28,8 @@ class Ctx:
         self.known_hits = []
         self.notes = []
         self.build_dir = None
+        for old in glob.glob(os.path.join(VERIF, "replays", pid + "-*.json")):
+            os.remove(old)          # replay files of earlier runs of this check
         self.known = load_known()
         self.quick = tier == "quick"
 
@@ -80,14 +82,19 @@ class Ctx:
                 if k["id"] not in [h["id"] for h in self.known_hits]:
                     self.known_hits.append(k)
                 return False
+        self.nviol = getattr(self, "nviol", 0) + 1
+        skey = prop + json.dumps(sig, sort_keys=True, default=str)
+        self.per_sig = getattr(self, "per_sig", {})
+        self.per_sig[skey] = self.per_sig.get(skey, 0) + 1
+        if self.per_sig[skey] > 3 or len(self.violations) >= 60:
+            return True         # counted, not written: at most 3 replay files per signature
         h = hashlib.sha1(json.dumps(replay_obj, sort_keys=True, default=str).encode()).hexdigest()[:12]
         rp = os.path.join(VERIF, "replays", "%s-%s.json" % (prop, h))
         os.makedirs(os.path.dirname(rp), exist_ok=True)
         with open(rp, "w") as f:
             json.dump({"property": prop, "what": what, "signature": sig, "tier": self.tier,
                        "seed": self.seed, "replay": replay_obj}, f, indent=1, default=str)
-        if len(self.violations) < 50:
-            self.violations.append({"property": prop, "what": what, "replay": rp, "signature": sig})
+        self.violations.append({"property": prop, "what": what, "replay": rp, "signature": sig})
         return True
 
     def finish(self, level, coverage, assumptions):
@@ -98,7 +105,8 @@ class Ctx:
             print("  " + v["what"][:600])
         ev = {"property_id": self.pid, "tier": self.tier, "seed": self.seed, "level": level,
               "coverage": coverage, "assumptions": assumptions,
-              "wall_s": round(time.time() - self.t0, 1), "violations": len(self.violations),
+              "wall_s": round(time.time() - self.t0, 1), "violations": getattr(self, "nviol", 0),
+              "violation_signatures": getattr(self, "per_sig", {}),
               "known_findings_hit": [k["id"] for k in self.known_hits], "notes": self.notes}
         os.makedirs(os.path.join(VERIF, "evidence"), exist_ok=True)
         with open(os.path.join(VERIF, "evidence", self.pid + ".json"), "w") as f:
@@ -124,7 +132,8 @@ def tlc(ctx, module, cfg=None, env=None, workers=NCPU, timeout=900, heap="4g", s
         extra=(), out=None, view_stdout=False):
     """run TLC on spec/<module>.tla; returns dict(rc, out, generated, distinct, depth, ok, error)"""
     meta = tempfile.mkdtemp(prefix="tlc-", dir=ctx.scratch)
-    cmd = ["timeout", str(timeout), "java", "-XX:+UseParallelGC", "-Xmx" + heap, "-Xss64m",
+    gc = ["-XX:+UseSerialGC", "-Xms256m"] if workers == 1 else ["-XX:+UseParallelGC", "-XX:ParallelGCThreads=%d" % max(2, min(8, workers))]
+    cmd = ["timeout", str(timeout), "java"] + gc + ["-Xmx" + heap, "-Xss64m",
            "-cp", JAR, "tlc2.TLC", "-workers", str(workers), "-metadir", meta, "-noGenerateSpecTE"]
     if cfg:
         cmd += ["-config", cfg]
